@@ -43,6 +43,14 @@ impl TableRefresh {
             self.curr_refresh_bucket = 0;
         }
 
+        #[cfg(feature = "verif")]
+        crate::verif::record(
+            self.table.lock().unwrap().node_id(),
+            crate::verif::EventKind::RefreshRound {
+                pending_timers: timer.len(),
+            },
+        );
+
         let (this_node_id, target_id, num_good_nodes, num_questionable_nodes, nodes_to_contact) = {
             let table = self.table.lock().unwrap();
 
